@@ -103,9 +103,27 @@ def expected_merge(rec_new, rec_old, rec_committed):
         if not all(re.fullmatch(r'a\d+\.', x) for x in (old, com, new)):
             return None
         return '%s/%s/a%d.' % (cid, args, max(b + c - a, 0))
-    if beh.startswith('v'):
+    if beh.startswith('m') and new == 'a13.':
+        return None                  # the resolver raises (AttributeError) for this wanted state
+    if beh[0] in 'vm':
         return '%s/%s/pa%s.p%sp%s%s' % (cid, args, beh[1:], norm_wire(old), norm_wire(com), norm_wire(new))
     return None
+
+
+def expect_undo(h, undone, multi=()):
+    """what undoing transaction `undone` must do to an object whose revisions (oldest first, real
+    outcomes only) are `h`: ('skip',) not judged | ('ok', data wire, [calls]) | ('err', [calls])"""
+    idx = max([j for j, (t2, _) in enumerate(h) if t2 == undone], default=None)
+    if idx is None or idx == 0 or any(w is None for _, w in h) or undone in multi:
+        # unknown tid / undo of the creation / un-created object / a transaction that holds SEVERAL
+        # records of the object (written by a multi-undo; every record is undone separately): not judged
+        return ('skip',)
+    if idx == len(h) - 1 or h[idx][1] == h[-1][1]:
+        return ('ok', h[idx - 1][1], [])
+    pre, curw, und = h[idx - 1][1], h[-1][1], h[idx][1]
+    calls = [expected_call(pre, und, curw)] if resolvable_class(pre) else []
+    merged = expected_merge(pre, und, curw)
+    return ('ok', merged, calls) if merged is not None else ('err', calls)
 
 
 def oracle_trace(ops, obs, pid='C03', kind=None):
@@ -119,6 +137,7 @@ def oracle_trace(ops, obs, pid='C03', kind=None):
     nontrivial = False
     hcount = {}
     copyundo = set()     # (oid, tid) of undo records that are plain copies (back pointers)
+    multitids = set()    # tids of transactions written by several undo calls (several records per object)
 
     def bump(k):
         hcount[k] = hcount.get(k, 0) + 1
@@ -303,6 +322,42 @@ def oracle_trace(ops, obs, pid='C03', kind=None):
                 P.append((pid + ':wrong-exception', 'op %d %r: undo raised %s' % (i, op, ob)))
             elif merged is not None:
                 P.append((pid + ':resolver-not-invoked', 'op %d %r: UndoError although the merge %s exists' % (i, op, merged)))
+        elif o == 'undomulti':
+            # several undo calls in one transaction: each later one sees what the earlier one staged
+            tid, oid = int(tk[1]), int(tk[2])
+            h = list(hist.get(oid, []))
+            ncommitted = len(h)
+            calls = [x for x in parts if x.startswith('call=')]
+            bump('undomulti:' + first)
+            if calls:
+                nontrivial = True
+            exp_calls, exp_out = [], None
+            for u in tk[3:]:
+                e = expect_undo(h, int(u), multitids)
+                if e[0] == 'skip':
+                    exp_calls = None
+                    break
+                if e[0] == 'err':
+                    exp_calls += e[1]
+                    exp_out = 'err:Undo'
+                    break
+                exp_calls += e[2]
+                h = h[:ncommitted] + [(tid, e[1])]
+                exp_out = 'ok ' + e[1]
+                if e[2] and len(h) > ncommitted and u != tk[3]:
+                    bump('undo-resolves-against-own-staged-record')
+            if exp_calls is not None:
+                got_out = ' '.join(x for x in parts if not x.startswith('call='))
+                if calls != exp_calls:
+                    P.append((pid + ':undo-resolver-arguments',
+                              'op %d %r: the undo calls of one transaction invoked the resolver with %s, expected %s '
+                              '(a later undo must merge against what the earlier one staged)' % (i, op, calls, exp_calls)))
+                elif got_out != exp_out:
+                    P.append((pid + (':wrong-exception' if first.startswith('err:Other') else ':undo-stored-differs'),
+                              'op %d %r: undo gave %s, expected %s' % (i, op, got_out, exp_out)))
+            if first == 'ok' and len(parts) > 1:
+                hist.setdefault(oid, []).append((tid, None if parts[1] == 'none' else parts[1]))
+                multitids.add(tid)
         elif o == 'undotxn':
             # expectation from the history tracked so far (real outcomes only)
             tid, oid, undone = int(tk[1]), int(tk[2]), int(tk[3])
@@ -313,7 +368,7 @@ def oracle_trace(ops, obs, pid='C03', kind=None):
             if calls:
                 nontrivial = True
                 bump('resolver-invoked:' + K.TABLE.get(int(calls[0][5:].split('|')[0]), ('', '?'))[1])
-            if idx is None or idx == 0 or any(w is None for _, w in h):
+            if idx is None or idx == 0 or any(w is None for _, w in h) or undone in multitids:
                 exp_out, exp_calls = None, None            # unknown tid / undo of the creation: not judged
             elif idx == len(h) - 1 or h[idx][1] == h[-1][1]:
                 exp_out, exp_calls = 'ok ' + h[idx - 1][1], []
